@@ -89,6 +89,16 @@ func c03(g *Gen) {
 				}
 			}
 		}
+		pathDiffers := false
+		if i%3 == 1 {
+			// as for vendored packages: the universe's key is not the package's own Path
+			for _, p := range pkgList {
+				if pk, ok := u[p]; ok && p != "" {
+					pk.Path = "ex.test/app/vendor/" + p
+					pathDiffers = true
+				}
+			}
+		}
 		var mk func() namer.Namer
 		var nmName string
 		switch g.R.Intn(5) {
@@ -118,6 +128,9 @@ func c03(g *Gen) {
 		cls := []string{"universe", "namer-" + nmName}
 		if sameNameInTables {
 			cls = append(cls, "one-name-in-several-tables")
+		}
+		if pathDiffers {
+			cls = append(cls, "package-path-differs-from-its-key")
 		}
 		for _, c := range names {
 			if c > 1 {
